@@ -228,8 +228,9 @@ def run_case(case):
     dump = bool(case.get("same_seed"))
     R = pipeline.leg_run(files, entry, env, 0, dump=dump)
     TX, text_form = pipeline.leg_transpile_execute(files, entry, env, 1, dump=dump, shortcut=bool(case.get("shortcut")))
-    procs = R + TX
-    allrules = [r for pl in env["plans"] for r in pl["rules"]]
+    aux = pipeline.take_aux()
+    procs = R + TX + aux
+    allrules = [r for pl in env["plans"] for r in pl["rules"]] + ((env.get("crash") or {}).get("rules") or [])
     st = core.stats_of(procs, [allrules] * len(procs))
     st["hash_seeds"] = [pl["seed"] for pl in env["plans"]]
     desc = case.get("example", "") + "/" + case.get("entry", "") if case["kind"] == "corpus" else \
@@ -246,6 +247,9 @@ def run_case(case):
     exe = [p for p in TX if p["args"][0] == "execute"]
     st["nontrivial"] = bool(exe) and len(r["out"]) > 0
     st["probes"] = {}
+    for a in aux:
+        if a.get("crashed"):
+            st["probes"]["crashed_and_restarted_" + a["args"][0]] = 1
     if env.get("dirty"):
         st["probes"]["transpiler_output_preexisting"] = 1
     if case.get("shortcut"):
@@ -308,6 +312,7 @@ def run_case(case):
             for alt in ("a5", "3c", "e7", "19"):
                 env2 = copy.deepcopy(env)
                 env2["plans"][0] = {"seed": alt * 16, "rules": []}
+                env2["crash"] = None
                 r2 = pipeline.leg_run(files, entry, env2, 0)[0]
                 if pipeline.norm_out(r2["out"]) != ro:
                     unordered = True
